@@ -52,7 +52,7 @@ def _case(rng, kind, sizes, nrounds=3):
   ids = sorted(pop)
   rounds = []
   for _ in range(nrounds):
-    k = rng.randint(1, len(ids)) if rng.random() < 0.3 else len(ids)
+    k = rng.randint(0, len(ids)) if rng.random() < 0.35 else len(ids)   # 0 = a round without clients
     rounds.append([[c, rng.randint(0, 50)] for c in rng.sample(ids, k)])
   c = {'kind': kind, 'copt': rng.choice(COPTS), 'sopt': rng.choice(SOPTS), 'hp': _hp(rng.choice(HPS), rng.randint(0, 9)),
        'noise': rng.random() < 0.8, 'mu': 0.0, 'slr': 1.0, 'coef': 0.5,
@@ -80,6 +80,9 @@ def generate(tier, rng):
   for kind in KINDS:
     c = _case(rng, kind, [3, 0, 0, 4])
     c['rounds'] = [[['0', 1], ['1', 2]], [['1', 3], ['2', 4]], [['2', 5], ['3', 6], ['0', 7]]]
+    yield c
+    c = _case(rng, kind, [2, 5])        # a round without clients in the middle of a run
+    c['rounds'] = [[['0', 1], ['1', 2]], [], [['1', 5], ['0', 7]]]
     yield c
   for i in range(reps):
     for kind in KINDS:
